@@ -6,20 +6,22 @@
 # is the choice point, fake subprocesses with real StreamReaders, a stubbed os.killpg.  For every configuration
 # (ordered test set x --num-processes x --repeat x --maxfail) the stateless explorer runs EVERY order of enabled
 # environment events (exit of any running fake process / expiry of the earliest timer) within the deviation bound
-# (quick: 2; thorough: none for n<=4 with --repeat 1 and for n<=2 with --repeat 2, else 3).  Replaying a prefix that
+# (quick: 2; thorough: none for n<=4 with --repeat 1 and for n<=2 with --repeat 2, else as listed below).  Replaying a prefix that
 # meets different options is a hard error (exit 2).  Every execution has a horizon (60 environment events).
 #
 #   Test attributes: is_parallel {P,S} x outcome {ok=exit 0, fail=exit 1, skip=77, err=99, sig=killed by SIGSEGV,
 #   hang=never exits => only the timeout ends it} x should_fail {n,x} x protocol {e=exitcode, t=tap with a stream
 #   `1..1/ok 1`, `1..1/not ok 1` or `1..0 # SKIP`}.  Timeouts differ per position (30,20,40,10,25 s virtual).
-#   Covering family (same code for both tiers, larger alphabets in thorough):
-#     A  n=1: the full attribute table (2 x 2 x (6 exitcode + 6x3 tap) = 96 tests)              x J x R x M
+#   Covering family (same code for both tiers; [q] = quick, [t] = thorough; bound = max number of non-default choices):
+#     A  n=1: the full attribute table (2 x 2 x (6 exitcode + 6x3 tap) = 96 tests)    x J x R x M   [q] bound 2  [t] all schedules
 #     B  n=2: all 12^2 pairs of (is_parallel, outcome); (should_fail, protocol) rotate so that all 16 pairs of
-#             them occur                                                                        x J x R x M
-#     C  n=3: all 8 P/S patterns x all outcome triples over {ok,fail,hang} (thorough: all 6 outcomes)
-#     D  n=4: all 16 P/S patterns x a strength-2 orthogonal array (9 rows) over {ok,fail,hang} (thorough: all 81)
-#     E  n=5 (thorough only): all 32 P/S patterns x strength-2 orthogonal array (27 rows) over {ok,fail,hang}
-#     F  n=2, --repeat 2, outcome depends on the iteration (flaky tests)
+#             them occur                                                              x J x R x M   [q] bound 2  [t] all schedules
+#     C  n=3: all 8 P/S patterns x outcome triples     [q] {ok,fail,hang}^3, R={1,2}, bound 2
+#                                                      [t] all 6^3 with R=1, all schedules; {ok,fail,hang}^3 with R=2, bound 3
+#     D  n=4: all 16 P/S patterns x outcome 4-tuples   [q] strength-2 orthogonal array (9 rows) over {ok,fail,hang}, bound 2
+#                                                      [t] all 3^4 with R=1, all schedules; the 9-row array with R=2, bound 3
+#     E  n=5 [t only]: all 32 P/S patterns x strength-2 orthogonal array (27 rows) over {ok,fail,hang}; R=1 bound 2, R=2 bound 1
+#     F  n=2, --repeat 2, outcome depends on the iteration (flaky tests), J={2,3}      [q] bound 2  [t] bound 3
 #   with J = --num-processes {1,2,3}, R = --repeat {1,2}, M = --maxfail {0,1}.
 #   EVERY configuration that is explored has ALL its schedules within the stated deviation bound explored.
 #
@@ -193,8 +195,8 @@ def oa27():
 
 
 def families(thorough):
-    """name -> list of test tuples (ordered test sets)."""
-    fam = collections.OrderedDict()
+    """-> list of (family name, ordered test sets, repeats, {repeat: deviation bound or None})."""
+    fam = []
     A = []
     for par in 'PS':
         for sf in 'nx':
@@ -203,13 +205,11 @@ def families(thorough):
             for out in OUTS:
                 for st in ('ok', 'notok', 'skip'):
                     A.append([mk(par, sf, 't', out, st)])
-    fam['A'] = A
     PO = [(p, o) for p in 'PS' for o in OUTS]
     B = []
     for idx, (x, y) in enumerate(itertools.product(PO, PO)):
         s0, s1 = rot_sp(idx, 0), rot_sp(idx, 1)
         B.append([mk(x[0], s0[0], s0[1], x[1], DEFAULT_STREAM[x[1]]), mk(y[0], s1[0], s1[1], y[1], DEFAULT_STREAM[y[1]])])
-    fam['B'] = B
     R3 = ['ok', 'fail', 'hang']
 
     def block(n, rows):
@@ -224,44 +224,50 @@ def families(thorough):
                 out.append(ts)
                 idx += 1
         return out
-    fam['C'] = block(3, list(itertools.product(OUTS if thorough else R3, repeat=3)))
-    fam['D'] = block(4, list(itertools.product(R3, repeat=4)) if thorough else [[R3[v] for v in r] for r in oa9()])
-    if thorough:
-        fam['E'] = block(5, [[R3[v] for v in r] for r in oa27()])
-    F = []
-    for pars in itertools.product('PS', repeat=2):
-        for o1, o1b in itertools.product(R3, repeat=2):
-            for o2, o2b in (itertools.product(R3, repeat=2) if thorough else [('ok', 'ok')]):
-                if o1 == o1b and o2 == o2b:
-                    continue
-                F.append([mk(pars[0], 'n', 'e', o1, None, o1b), mk(pars[1], 'n', 'e', o2, None, o2b)])
-    fam['F'] = F
+
+    def flaky(second):
+        F = []
+        for pars in itertools.product('PS', repeat=2):
+            for o1, o1b in itertools.product(R3, repeat=2):
+                for o2, o2b in second:
+                    if o1 == o1b and o2 == o2b:
+                        continue
+                    F.append([mk(pars[0], 'n', 'e', o1, None, o1b), mk(pars[1], 'n', 'e', o2, None, o2b)])
+        return F
+    r3_3 = list(itertools.product(R3, repeat=3))
+    oa9_rows = [[R3[v] for v in r] for r in oa9()]
+    if not thorough:
+        fam.append(('A', A, (1, 2), {1: 2, 2: 2}))
+        fam.append(('B', B, (1, 2), {1: 2, 2: 2}))
+        fam.append(('C', block(3, r3_3), (1, 2), {1: 2, 2: 2}))
+        fam.append(('D', block(4, oa9_rows), (1, 2), {1: 2, 2: 2}))
+        fam.append(('F', flaky([('ok', 'ok')]), (2,), {2: 2}))
+    else:
+        fam.append(('A', A, (1, 2), {1: None, 2: None}))
+        fam.append(('B', B, (1, 2), {1: None, 2: None}))
+        fam.append(('C', block(3, list(itertools.product(OUTS, repeat=3))), (1,), {1: None}))
+        fam.append(('C', block(3, r3_3), (2,), {2: 3}))
+        fam.append(('D', block(4, list(itertools.product(R3, repeat=4))), (1,), {1: None}))
+        fam.append(('D', block(4, oa9_rows), (2,), {2: 3}))
+        fam.append(('E', block(5, [[R3[v] for v in r] for r in oa27()]), (1, 2), {1: 2, 2: 1}))
+        fam.append(('F', flaky(list(itertools.product(R3, repeat=2))), (2,), {2: 3}))
     if os.environ.get('C12_FAMS'):      # debugging aid only
-        fam = collections.OrderedDict((k, v) for k, v in fam.items() if k in os.environ['C12_FAMS'])
+        fam = [f for f in fam if f[0] in os.environ['C12_FAMS']]
     return fam
 
 
 def configurations(thorough):
     """Ordered simplest-first: list of (config dict, deviation bound or None)."""
     out = []
-    for name, sets in families(thorough).items():
+    for name, sets, repeats, bounds in families(thorough):
         for tests in sets:
-            n = len(tests)
-            for repeat in ((2,) if name == 'F' else (1, 2)):
+            for repeat in repeats:
                 for jobs in (1, 2, 3):
-                    if name == 'F' and jobs == 1 and not thorough:
+                    if name == 'F' and jobs == 1:
                         continue
                     for maxfail in (0, 1):
                         cfg = {'fam': name, 'tests': tests, 'jobs': jobs, 'repeat': repeat, 'maxfail': maxfail}
-                        if not thorough:
-                            bound = 2
-                        elif (repeat == 1 and n <= 4) or n <= 2:
-                            bound = None
-                        elif n <= 3:
-                            bound = 4
-                        else:
-                            bound = 3
-                        out.append((cfg, bound))
+                        out.append((cfg, bounds[repeat]))
     out.sort(key=lambda cb: (len(cb[0]['tests']) * cb[0]['repeat'], cb[0]['jobs']))
     return out
 
@@ -559,9 +565,9 @@ def observation(cfg, wd, prefix, sig=()):
     """Everything the oracle looks at, in comparable form (used for the determinism self-check and re-validation)."""
     r, log, ntr, rc, out, jrecs = run_schedule(cfg, wd, prefix, sig)
     V, S, classes = judge(cfg, log, rc, out, jrecs, r.error)
-    return {'choices': list(r.choices), 'schedule': [l[c] for l, c in zip(r.labels, r.choices)], 'log': [list(e) for e in log],
+    return {'choices': list(r.choices), 'labels': [list(l) for l in r.labels], 'schedule': [l[c] for l, c in zip(r.labels, r.choices)], 'log': [list(e) for e in log],
             'rc': rc, 'totals': parse_totals(out)[0], 'results': sorted((j['name'], j['env'].get('MESON_TEST_ITERATION'), j['result']) for j in jrecs),
-            'error': r.error, 'violations': sorted(V)}
+            'error': r.error, 'violations': sorted(set(V))}
 
 
 MAIN_BLD = None
@@ -606,6 +612,16 @@ def explore_config(item):
     agg['stats'] = dict(agg['stats'])
     agg['classes'] = sorted(agg['classes'])
     return agg
+
+
+def selftest_divergence(case):
+    """The explorer must refuse to replay a prefix whose recorded options differ from what the execution offers."""
+    wd = worker_wd(MAIN_BLD)
+    try:
+        run_schedule(case['config'], wd, tuple(case['choices']), tuple(tuple(l) for l in case['labels']))
+    except vloop.ReplayDivergence as e:
+        return 'diverged: %s' % e
+    return 'accepted'
 
 
 def reexec(case):
@@ -919,17 +935,58 @@ def main():
     # ---- start-up self-checks: determinism of one non-trivial schedule, executed twice in fresh processes ----
     probe = {'fam': 'probe', 'jobs': 2, 'repeat': 1, 'maxfail': 0,
              'tests': [mk('P', 'n', 'e', 'ok'), mk('P', 'x', 't', 'fail', 'notok'), mk('S', 'n', 'e', 'hang'), mk('P', 'n', 'e', 'err')]}
-    case = {'config': probe, 'choices': [1, 1, 0], 'labels': []}
+    # (the probe schedule is derived from what the real code offers, so that a changed tree yields verdicts, not probe failures)
+    case0 = {'config': probe, 'choices': [], 'labels': []}
+    d1, d2 = list(pmap(reexec, [case0, case0], jobs=2))
+    if d1 != d2:
+        ck.internal('the default schedule executed twice gave different observations:\n%r\n%r' % (d1, d2))
+    dev = []
+    for opts in d1['labels']:
+        dev.append(len(opts) - 1 if len(dev) < 2 and len(opts) > 1 else 0)      # "timer" at the first two real choice points
+        if len(dev) >= 3:
+            break
+    case = {'config': probe, 'choices': dev, 'labels': d1['labels'][:1]}
     o1, o2 = list(pmap(reexec, [case, case], jobs=2))
     if o1 != o2:
         ck.internal('the same schedule replayed twice gave different observations:\n%r\n%r' % (o1, o2))
-    ck.require(o1['choices'][:3] == [1, 1, 0] and o1['violations'] == [] and any(r[2] == 'TIMEOUT' for r in o1['results']),
-               'probe schedule did not behave as designed: %r' % (o1,))
+    ck.require(o1['choices'][:len(dev)] == dev, 'probe schedule was not followed: %r' % (o1,))
+    for key, what in sorted(set(d1['violations'] + o1['violations'])):
+        ck.violation(key, what, dict(case, labels=[]))
+    if d1['labels'] and len(d1['labels'][0]) > 1:
+        wrong = dict(case0, choices=[0], labels=[d1['labels'][0][:-1]])       # one option fewer than really offered
+        right = dict(case0, choices=[0], labels=[d1['labels'][0]])
+        r1, r2 = list(pmap(selftest_divergence, [wrong, right], jobs=2))
+        ck.require(r1.startswith('diverged') and r2 == 'accepted', 'replay-divergence detection is broken: %r / %r' % (r1, r2))
     ck.sample({'probe_schedule': o1['schedule'], 'results': o1['results'], 'totals': o1['totals'], 'exit': o1['rc']})
 
     states = transitions = traces = 0
     exhaustive = True
     classes = set()
+
+    # ---- selection ----
+    if ck.want('sel'):
+        subsets = [c for k in range(len(SUITE_ARGS) + 1) for c in itertools.combinations(SUITE_ARGS, k)]
+        pairs = [(i, e) for i in subsets for e in subsets]
+        chunks = [pairs[i:i + 128] for i in range(0, len(pairs), 128)]
+        st = collections.Counter()
+        distinct = set()
+        pending = []
+        for res in pmap(sel_chunk, chunks):
+            for k in ('cases', 'cells', 'unspec', 'nonempty'):
+                st[k] += res[k]
+            distinct |= set(map(tuple, res['distinct']))
+            pending += res['viol'][:4]
+        ncases, viol, sample, order = slice_cases(worker_wd(SEL_BLD), 6)
+        pending += viol
+        report(ck, pending)
+        if sample:
+            ck.sample(sample)
+        ck.part('selection', suite_pairs=st['cases'], cells_compared=st['cells'], skipped_unspecified=st['unspec'],
+                nonempty_selections=st['nonempty'], distinct_selections=len(distinct), slice_cases=ncases, listed_order=order)
+        ck.add('skipped_unspecified', st['unspec'])
+        ck.require(len(distinct) >= 20 and st['nonempty'] > 100, 'suite selection space degenerate')
+        states += st['cases'] + ncases
+        transitions += st['cases'] + ncases
 
     # ---- Part 1 ----
     if ck.want('p1'):
@@ -988,31 +1045,6 @@ def main():
             ck.require(tot['exec_with_deviation'] > 0, 'no non-default schedule')
             ck.require(len(classes) >= 20, 'too few classification classes observed: %d' % len(classes))
 
-    # ---- selection ----
-    if ck.want('sel'):
-        subsets = [c for k in range(len(SUITE_ARGS) + 1) for c in itertools.combinations(SUITE_ARGS, k)]
-        pairs = [(i, e) for i in subsets for e in subsets]
-        chunks = [pairs[i:i + 128] for i in range(0, len(pairs), 128)]
-        st = collections.Counter()
-        distinct = set()
-        pending = []
-        for res in pmap(sel_chunk, chunks):
-            for k in ('cases', 'cells', 'unspec', 'nonempty'):
-                st[k] += res[k]
-            distinct |= set(map(tuple, res['distinct']))
-            pending += res['viol'][:4]
-        ncases, viol, sample, order = slice_cases(worker_wd(SEL_BLD), 6)
-        pending += viol
-        report(ck, pending)
-        if sample:
-            ck.sample(sample)
-        ck.part('selection', suite_pairs=st['cases'], cells_compared=st['cells'], skipped_unspecified=st['unspec'],
-                nonempty_selections=st['nonempty'], distinct_selections=len(distinct), slice_cases=ncases, listed_order=order)
-        ck.add('skipped_unspecified', st['unspec'])
-        ck.require(len(distinct) >= 20 and st['nonempty'] > 100, 'suite selection space degenerate')
-        states += st['cases'] + ncases
-        transitions += st['cases'] + ncases
-
     # ---- Part 2 ----
     if ck.want('p2'):
         cases = p2_cases(thorough)
@@ -1061,7 +1093,7 @@ def main():
               distinct_result_classes=len(classes),
               rule='states = distinct (configuration, schedule prefix) points of the exploration tree (+ selection cases); transitions = environment '
                    'events (process exit / timer expiry) delivered to the real harness (+ selection calls); traces = complete schedules executed on '
-                   'the real TestHarness and judged; deviation bound %s; horizon %d events' % ('2' if not thorough else 'none (n<=4, repeat 1; n<=2), 4 (n=3 repeat 2), 3 (n>=4 repeat 2, n=5)', HORIZON),
+                   'the real TestHarness and judged; deviation bound %s; horizon %d events' % ('2' if not thorough else 'none (n<=4 with repeat 1; n<=2), 3 (n=3,4 with repeat 2; flaky), 2/1 (n=5)', HORIZON),
               exhaustive=exhaustive)
 
 
